@@ -86,9 +86,10 @@ Definition mko (pf : profile) (n : nat) (sq : bool) (m : smat) : obj K :=
   @Build_obj K pf n sq m None None.
 Definition mkn (pf : profile) (n : nat) (sq : bool) (m : smat) : newobj K :=
   @Build_newobj K pf n sq m.
-Definition pf (td : option string) (kids : list nat) (ig : bool) (eg : eig_kind) (cm : option nat) (pc sm it : bool) : profile :=
+Definition pf (td : option string) (kids : list nat) (ig : bool) (eg : eig_kind) (cm : option nat) (pc sm it : bool)
+           (dg : option bool) : profile :=
   {| pf_td_name := td; pf_td_kids := kids; pf_chol_ignore := ig; pf_eig := eg; pf_cm_root := cm; pf_precond := pc;
-     pf_sum := sm; pf_iqld_to := it |}.
+     pf_sum := sm; pf_iqld_to := it; pf_deleg := dg |}.
 Definition X (r v : bool) (ks : list (list key)) (b : list (nat * nat)) : expect :=
   {| x_raised := r; x_valid := v; x_keys := ks; x_bad := b |}.
 
